@@ -251,6 +251,18 @@ func (s *injStore) Delete(key string) error {
 
 func (s *injStore) ReadOnly() bool { return false }
 
+// ---- push-only injected storage: storage.InjectBase as it comes ---------------------------------------
+//
+// A database that only pushes updates (Controller.PushUpdate) and accepts no write: Put, Delete, Query and —
+// the point — ReadOnly() (true) and Injected() (true) are InjectBase's own. Only Get is given an answer of the
+// storage contract ("nothing stored": storage.ErrNotFound) instead of the base's ErrNotImplemented.
+
+type pushOnlyStore struct {
+	storage.InjectBase
+}
+
+func (s *pushOnlyStore) Get(key string) (record.Record, error) { return nil, storage.ErrNotFound }
+
 // ---- runtime registry provider ---------------------------------------------------------------------
 
 type regProvider struct {
@@ -343,7 +355,7 @@ type subState struct {
 }
 
 type world struct {
-	kind    string // hashmap | bbolt | inj | reg
+	kind    string // hashmap | bbolt | inj | reg | pushonly
 	shadow  bool
 	dbName  string
 	ctrl    *database.Controller
@@ -398,7 +410,7 @@ func (w *world) open(kind string, shadow bool) string {
 	w.kind, w.shadow = kind, shadow
 	w.dbName = fmt.Sprintf("c14x%d", atomic.AddInt64(&dbCounter, 1))
 	st := kind
-	if kind == "inj" || kind == "reg" {
+	if kind == "inj" || kind == "reg" || kind == "pushonly" {
 		st = database.StorageTypeInjected
 	}
 	if _, err := database.Register(&database.Database{Name: w.dbName, Description: "C14 case", StorageType: st, ShadowDelete: shadow}); err != nil {
@@ -409,6 +421,16 @@ func (w *world) open(kind string, shadow bool) string {
 		c, err := database.InjectDatabase(w.dbName, &injStore{m: map[string]*Rec{}})
 		if err != nil {
 			return "err other:" + err.Error()
+		}
+		w.ctrl = c
+		w.push = c.PushUpdate
+	case "pushonly":
+		c, err := database.InjectDatabase(w.dbName, &pushOnlyStore{})
+		if err != nil {
+			return "err other:" + err.Error()
+		}
+		if !c.ReadOnly() || !c.Injected() {
+			return "err other:push-only storage is not read-only"
 		}
 		w.ctrl = c
 		w.push = c.PushUpdate
@@ -757,7 +779,7 @@ func (w *world) Do(line string) string {
 			return "bad-op"
 		}
 		switch f[1] {
-		case "hashmap", "bbolt", "inj", "reg", "regraw":
+		case "hashmap", "bbolt", "inj", "reg", "regraw", "pushonly":
 		default:
 			return "bad-op"
 		}
